@@ -1291,3 +1291,35 @@ def answer_implies(p, h, answer, reqs):
             if not any(fr in k and v is val for k, v in decs for fr, val in alts):
                 return False
     return seen
+
+
+def unit_with_private_helpers(p, seeds, crate="rustfmt_nightly", rounds=3, stop=(), exclude=None):
+    """seeds (Fn list) + their closures + every non-pub function of the crate all of whose callers are already in the unit
+    (a helper extracted from a member is part of what the member does).  `stop`: last path segments that stay leaves."""
+    unit = list(seeds)
+    ids = {g.id for g in unit}
+    for g in p.by_crate.get(crate, []):
+        if g.id not in ids and any(g.id.startswith(i + "::{closure") for i in list(ids)):
+            unit.append(g)
+            ids.add(g.id)
+    for _ in range(rounds):
+        grew = False
+        for g in list(unit):
+            for c in g.calls():
+                h = p.fns.get(c.name)
+                if h is None or h.id in ids or h.crate != crate or h.vis == "pub" or c.name.rsplit("::", 1)[-1] in stop:
+                    continue
+                callers = {src for (src, kind, cc) in p.callers().get(h.id, [])}
+                if callers and all(x in ids for x in callers):
+                    if exclude is not None and exclude(h):
+                        continue
+                    unit.append(h)
+                    ids.add(h.id)
+                    for k in p.by_crate.get(crate, []):
+                        if k.id not in ids and k.id.startswith(h.id + "::{closure"):
+                            unit.append(k)
+                            ids.add(k.id)
+                    grew = True
+        if not grew:
+            break
+    return unit
